@@ -638,6 +638,8 @@ func handle(r *req) resp {
 			out["v"] = canonicalSQL(st)
 		})
 		return out
+	case "conc":
+		return opConc(r.Args)
 	case "ping":
 		return resp{"r": "ok"}
 	}
